@@ -1836,10 +1836,9 @@ def plan(tier, seed):
     """-> (exhaustive blocks [(spec, solver, alphabet name, depth, wrap)], random (specs, chunks, n per chunk, max depth))"""
     b0, b1, b2 = hand_bases()
     if tier == "quick":
-        ex = [(b0, "glpk", "quick", 2, 0), (b1, "glpk_exact", "quick>core", 2, 0),
-              (b0, "glpk_exact", "core", 2, 0), (b1, "glpk", "core", 2, 0), (b2, "glpk", "core", 2, 0),
-              (b0, "glpk", "core", 2, 1), (b1, "glpk_exact", "core", 2, 1)]
-        rnd = ([b0, b1, b2] + gen_bases(seed, 5), 64, 80, 6)
+        ex = [(b0, "glpk", "quick", 2, 0), (b1, "glpk_exact", "quick>core", 2, 0), (b2, "glpk", "core", 2, 0),
+              (b0, "glpk_exact", "core", 2, 1), (b1, "glpk", "core", 2, 1)]
+        rnd = ([b0, b1, b2] + gen_bases(seed, 5), 64, 72, 6)
     else:
         ex = [(b0, "glpk", "core", 3, 0), (b1, "glpk_exact", "core", 3, 0), (b0, "glpk_exact", "core", 3, 1)]
         for b, sv in ((b0, "glpk"), (b0, "glpk_exact"), (b1, "glpk"), (b1, "glpk_exact"), (b2, "glpk")):
